@@ -655,6 +655,19 @@ def run(ctx):
                 ctx.report_known(f)
     for c in cases[:3] + cases[n_clean:n_clean + 2]:
         ctx.sample({"catalogue": c["catalogue"][:200], "query": c["text"][:300], "want": str(c["want"])[:300], "tags": c["tags"]})
+    # names that mean different things at different levels (a WITH table / derived alias named like a base table, a derived alias named like a visible WITH table):
+    # the known flows of props/c17.py's shadowing family, judged here as lineage VALUES
+    from props import c17
+    sh = c17.shadowing_cases(ctx.rng.fork("shadowing"), 200 if ctx.quick else 4000)
+    res_sh, _ = ctx.corr(["AN lineage %s %s %s" % (d, E.enhex(c17.SHADOW_CAT), E.enhex(t)) for d, t, _ in sh], stream="lineage-shadowing")
+    for (d, t, want), (_, a, _) in zip(sh, res_sh):
+        got = c17.parse_an_lineage(a) if a.startswith("OK ") else None
+        ctx.count("shadowing:" + ("as-specified" if got == want else "DIFFERENT"))
+        if got != want:
+            pfam.report(ctx, "lineage:name-shadowing", {"kind": "input", "entry": "TableLineageAnalyzer", "dialect": d, "input": t, "catalogue": c17.SHADOW_CAT,
+                                                       "want": [[n_, sorted(map(list, s_), key=str)] for n_, s_ in want], "observed": a[:600],
+                                                       "oracle": "c16: each output column has exactly the base columns that flow into it; a derived table's alias is looked up before a WITH table of the same name, both before the provider",
+                                                       "how_found": "stream lineage-shadowing"})
     pfam.conclude(ctx, search)
 
 
